@@ -1,8 +1,152 @@
 mod dispatch;
+mod json;
+mod oracle;
+mod props;
+mod runner;
+mod selftest;
+mod sidefile;
+
+use hcore::case::Case;
+use json::Obj;
+use props::Tier;
+use runner::{plan_from_str, run_item, Item};
+use std::io::Write;
+
+fn tier_of(s: &str) -> Tier {
+    match s {
+        "thorough" => Tier::Thorough,
+        _ => Tier::Quick,
+    }
+}
+
+fn weight(it: &Item) -> u64 {
+    // rough relative cost, used only to balance work between processes
+    let w = match it.case.nt[0] {
+        hcore::settings::NtSet::Max(n) | hcore::settings::NtSet::N(n) => n.max(1),
+        _ => 4,
+    } as u64;
+    let n = it.case.input.len().max(1) as u64 + if it.case.endless { 8 } else { 0 };
+    let b = match it.plan.bound {
+        None => 400 * w * w * w,
+        Some(0) => 1,
+        Some(1) => 8 * w,
+        Some(2) => 60 * w * w,
+        Some(_) => 400 * w * w,
+    };
+    let pts = if it.case.cpoints || it.case.spoints { 4 } else { 1 };
+    1 + b * n * pts / 4
+}
 
 fn main() {
     hcore::glue::install();
-    let case = hcore::case::Case::new(hcore::case::Src::SVec, 4, "MF", hcore::visit::Term::CollectVec);
-    let obs = hcore::case::run_case(&case, &sched::Config::default(), &[], dispatch::body);
-    println!("{:?}", obs.result);
+    sched::set_fatal_handler(runner::fatal_handler);
+    std::panic::set_hook(Box::new(|info| {
+        // injected faults and library panics are expected; only machinery panics are printed
+        let msg = format!("{}", info);
+        if msg.contains("MACHINERY") {
+            eprintln!("{}", msg);
+        }
+    }));
+    let args: Vec<String> = std::env::args().collect();
+    let par = std::thread::available_parallelism().map(|x| x.get()).unwrap_or(1);
+    match args.get(1).map(|s| s.as_str()) {
+        Some("list") => {
+            // mc list <PROP> <tier>  -> one line: count and weights
+            let items = props::items(&args[2], tier_of(&args[3]));
+            let ws: Vec<String> = items.iter().map(|i| weight(i).to_string()).collect();
+            println!("{}", Obj::new().s("prop", &args[2]).n("count", items.len() as u64).n("available_parallelism", par as u64).raw("weights", &json::arr(&ws)).build());
+        }
+        Some("run") => {
+            // mc run <PROP> <tier> <sidefile> <idx,idx,...>
+            if par < 8 {
+                sched::machinery_error("available_parallelism < 8: configurations with 7 workers cannot be explored");
+            }
+            let prop = &args[2];
+            let items = props::items(prop, tier_of(&args[3]));
+            sidefile::open(&args[4]);
+            let mut agg = runner::Agg::default();
+            for tok in args[5].split(',') {
+                let (a, b) = match tok.split_once('-') {
+                    Some((a, b)) => (a.parse::<usize>().unwrap(), b.parse::<usize>().unwrap()),
+                    None => {
+                        let a = tok.parse::<usize>().unwrap();
+                        (a, a + 1)
+                    }
+                };
+                for idx in a..b {
+                    sidefile::set_idx(idx);
+                    let r = run_item(prop, &items[idx]);
+                    agg.absorb(prop, idx, &items[idx], &r);
+                }
+            }
+            println!("{}", agg.to_json(prop));
+            let _ = std::io::stdout().flush();
+            println!("{}", Obj::new().s("type", "done").build());
+        }
+        Some("replay") => {
+            // mc replay <case> <plan> <checks> <schedule>
+            let case = Case::decode(&args[2]);
+            let plan = plan_from_str(&args[3]);
+            let checks: u32 = args[4].parse().unwrap();
+            let schedule = runner::schedule_parse(&args[5]);
+            let item = Item { case, plan, checks };
+            let seq = if checks & runner::CK_VS_SEQ != 0 {
+                let mut sc = item.case.clone();
+                sc.nt = [hcore::settings::NtSet::N(1), hcore::settings::NtSet::Keep, hcore::settings::NtSet::Keep, hcore::settings::NtSet::Keep];
+                Some(hcore::case::run_case(&sc, &item.plan.config(), &[], dispatch::body).result)
+            } else {
+                None
+            };
+            if checks & runner::CK_FN_SWEEP != 0 {
+                let (n, vs) = oracle::fn_sweep();
+                println!("fn sweep: {} evaluations", n);
+                for v in &vs {
+                    println!("VIOLATION-DETAIL key={} {}", v.key, v.what);
+                }
+                std::process::exit(if vs.is_empty() { 0 } else { 1 });
+            }
+            let obs = hcore::case::run_case(&item.case, &item.plan.config(), &schedule, dispatch::body);
+            let vs = runner::judge(&item, &obs, seq.as_ref());
+            println!("case     {}", item.case.encode());
+            println!("plan     {}  schedule {}", item.plan.name(), runner::schedule_str(&obs.rec.choices()));
+            println!("result   {:x?}", obs.result);
+            println!("drops    {:?}", obs.drops);
+            for l in runner::fmt_log(&obs.rec) {
+                println!("  {}", l);
+            }
+            for v in &vs {
+                println!("VIOLATION-DETAIL key={} {}", v.key, v.what);
+            }
+            std::process::exit(if vs.is_empty() { 0 } else { 1 });
+        }
+        Some("explore") => {
+            // mc explore <case> <plan> [checks]
+            let case = Case::decode(&args[2]);
+            let plan = plan_from_str(&args[3]);
+            let checks = args.get(4).map(|x| x.parse().unwrap()).unwrap_or(1);
+            let item = Item { case, plan, checks };
+            let t = std::time::Instant::now();
+            let r = run_item("explore", &item);
+            println!("{}", runner::result_json("explore", 0, &item, &r));
+            eprintln!(
+                "executions={} complete={} states={} edges={} outcomes={} nontrivial={} violations={} time={:?}",
+                r.executions,
+                r.complete,
+                r.states,
+                r.edges,
+                r.outcomes,
+                r.nontrivial,
+                r.violations.len(),
+                t.elapsed()
+            );
+        }
+        Some("selftest") => {
+            let ok = selftest::run();
+            std::process::exit(if ok { 0 } else { 2 });
+        }
+        _ => {
+            eprintln!("usage: mc list|run|replay|explore|selftest ...");
+            std::process::exit(2);
+        }
+    }
 }
